@@ -460,7 +460,7 @@ func (g *gen) base() *Schema {
 		s.Types = append(s.Types, Type{Name: fmt.Sprintf("O%d", i), Kind: "OBJECT"})
 	}
 	s.Types = append(s.Types, Type{Name: "Query", Kind: "OBJECT"})
-	if r.Chance(30) {
+	if r.Chance(50) {
 		s.Types = append(s.Types, Type{Name: "Mutation", Kind: "OBJECT"})
 	}
 	for i := 1; i <= r.Intn(3); i++ {
